@@ -34,6 +34,7 @@ package execution
 //@   ensures [error_mapping] err == nil ==> cmdLogOK[old(cmdLogN)]
 //@   ensures [deadline_set] err == nil && target.Timeout > 0 ==> cmdLogDeadline[old(cmdLogN)]
 //@   ensures [at_most_one_command] cmdLogN <= old(cmdLogN) + 1
+//@   before_call Err#1 [failure_classified_before_the_timeout_context_is_released] cancelCalls == old(cancelCalls)
 //@   ghostset target.mainRan := true
 //@   ghostset target.mainOK := err == nil
 //@   ghostset target.checksOK := false
